@@ -1183,3 +1183,92 @@ func DigestDiff(a, b string) []string {
 	sort.Strings(out)
 	return out
 }
+
+// StructuralDigest renders every non-lock field of a value (exported or not) canonically: map entries sorted by key, stored
+// requests by their id, times left out. Two MemoryStores that went through the same operations have the same digest,
+// whatever tables and indexes the store keeps.
+func StructuralDigest(v interface{}) string {
+	var b strings.Builder
+	structuralDigest(&b, reflect.ValueOf(v), 0)
+	return b.String()
+}
+
+func structuralDigest(b *strings.Builder, v reflect.Value, depth int) {
+	if depth > 8 || !v.IsValid() {
+		return
+	}
+	if v.CanInterface() {
+		switch x := v.Interface().(type) {
+		case fosite.Requester:
+			if x == nil || (reflect.ValueOf(x).Kind() == reflect.Ptr && reflect.ValueOf(x).IsNil()) {
+				b.WriteString("req:nil")
+			} else {
+				b.WriteString("req:" + x.GetID())
+			}
+			return
+		case time.Time:
+			b.WriteString("t")
+			return
+		}
+	}
+	switch v.Kind() {
+	case reflect.Ptr, reflect.Interface:
+		if v.IsNil() {
+			b.WriteString("nil")
+			return
+		}
+		structuralDigest(b, v.Elem(), depth+1)
+	case reflect.Struct:
+		if v.Type().String() == "time.Time" {
+			b.WriteString("t")
+			return
+		}
+		b.WriteString("{")
+		for i := 0; i < v.NumField(); i++ {
+			if isLockType(v.Type().Field(i).Type) {
+				continue
+			}
+			f := v.Field(i)
+			if !f.CanInterface() && f.CanAddr() {
+				f = settable(f)
+			}
+			b.WriteString(v.Type().Field(i).Name + "=")
+			structuralDigest(b, f, depth+1)
+			b.WriteString(";")
+		}
+		b.WriteString("}")
+	case reflect.Map:
+		type kv struct{ k, v string }
+		var es []kv
+		it := v.MapRange()
+		for it.Next() {
+			var kb, vb strings.Builder
+			structuralDigest(&kb, it.Key(), depth+1)
+			structuralDigest(&vb, it.Value(), depth+1)
+			es = append(es, kv{kb.String(), vb.String()})
+		}
+		sort.Slice(es, func(i, j int) bool { return es[i].k < es[j].k })
+		b.WriteString("[")
+		for _, e := range es {
+			b.WriteString(e.k + ":" + e.v + ",")
+		}
+		b.WriteString("]")
+	case reflect.Slice, reflect.Array:
+		b.WriteString("(")
+		for i := 0; i < v.Len(); i++ {
+			structuralDigest(b, v.Index(i), depth+1)
+			b.WriteString(",")
+		}
+		b.WriteString(")")
+	case reflect.String:
+		b.WriteString(v.String())
+	case reflect.Bool:
+		fmt.Fprint(b, v.Bool())
+	case reflect.Int, reflect.Int8, reflect.Int16, reflect.Int32, reflect.Int64:
+		fmt.Fprint(b, v.Int())
+	case reflect.Uint, reflect.Uint8, reflect.Uint16, reflect.Uint32, reflect.Uint64:
+		fmt.Fprint(b, v.Uint())
+	default:
+		b.WriteString(v.Kind().String())
+	}
+}
